@@ -77,6 +77,25 @@ func genC02(t *rapid.T) c02Case {
 		}
 		return c
 	}
+	if rapid.IntRange(0, 4).Draw(t, "directed3") == 0 {
+		// a replica that was away across a failover fetches, in one response,
+		// the tail of the old epoch and the head of the new one; it is elected
+		// later and the first leader, which kept an uncommitted suffix at the
+		// epoch boundary, reconciles against it
+		c.Steps = []c02Step{
+			{Op: "publish", N: rapid.IntRange(1, 3).Draw(t, "n0"), Policy: 2}, {Op: "settle"},
+			{Op: "crash", X: 2, Sel: 0}, {Op: "shrink", X: 2},
+			{Op: "publish", N: rapid.IntRange(1, 3).Draw(t, "n1"), Policy: 2}, {Op: "settle"},
+			{Op: "hold"}, {Op: "publish", N: rapid.IntRange(1, 2).Draw(t, "n2"), Policy: 1},
+			{Op: "crash", X: 100, Sel: 0}, {Op: "leader", X: 0, Sel: 0}, {Op: "shrink", X: 0},
+			{Op: "publish", N: rapid.IntRange(1, 3).Draw(t, "n3"), Policy: 2}, {Op: "settle"},
+			{Op: "restart", X: 2}, {Op: "settle"}, {Op: "expand", X: 2}, {Op: "settle"},
+			{Op: "crash", X: 101, Sel: 0}, {Op: "leader", X: 0, Sel: 0}, {Op: "shrink", X: 1},
+			{Op: "publish", N: 1, Policy: 2}, {Op: "settle"},
+			{Op: "restart", X: 0}, {Op: "settle"}, {Op: "restart", X: 1}, {Op: "settle"},
+		}
+		return c
+	}
 	n := rapid.IntRange(4, 30).Draw(t, "nsteps")
 	for i := 0; i < n; i++ {
 		st := c02Step{X: rapid.IntRange(0, 2).Draw(t, "x"), Sel: rapid.IntRange(0, 5).Draw(t, "sel")}
